@@ -119,6 +119,8 @@ class GraphCheck:
             for s in range(nsh):
                 shards.append({"kind": "realast", "shard": s, "nshards": nsh,
                                "limit_files": 120 if quick else None})
+        if getattr(self, "with_gtests", False):
+            shards.append({"kind": "gtests"})
         for sp in shards:
             sp["tier"] = tier
         return shards
@@ -274,6 +276,8 @@ class GraphCheck:
         return done
 
     def run_shard(self, spec):
+        if spec.get("kind") == "gtests":
+            return run_gtests_shard(self.PROPERTY)
         attach.install(self.profile)
         acc = ShardAcc(self.PROPERTY)
         tier = spec.get("tier", "quick")
@@ -292,3 +296,47 @@ class GraphCheck:
                                "complete (88680) unless this run used a 1-in-10 stride (quick tier of "
                                "the product oracles); exh6s/exh7s are uniform samples",
         }
+
+
+def run_gtests_shard(prop):
+    """G-tests: the repository's own tests under the monitors (pytest plugin in a
+    sub-process); findings of `prop` are folded into this check."""
+    import json
+    import os
+    import subprocess
+    import tempfile
+
+    acc = ShardAcc(prop)
+    fd, out = tempfile.mkstemp(suffix=".json", dir=os.path.join(core.VERIF_DIR, "out"))
+    os.close(fd)
+    env = dict(os.environ)
+    env["VMON_GTESTS_OUT"] = out
+    env["PYTHONPATH"] = core.VERIF_DIR
+    env[core.GUARD] = "1"
+    try:
+        subprocess.run([os.environ.get("VMON_PYTHON", "/venv/bin/python"), "-m", "pytest", "-q",
+                        "-p", "vmon.pytest_plugin", "-p", "no:cacheprovider", "--timeout=600"],
+                       cwd=core.REPO_DIR, env=env, capture_output=True, text=True, timeout=1500)
+        with open(out) as f:
+            r = json.load(f)
+    except Exception as e:
+        acc.inconclusive_count += 1
+        acc.inconclusive.append({"case": "gtests", "why": repr(e)[:300]})
+        return acc.result()
+    finally:
+        try:
+            os.unlink(out)
+        except OSError:
+            pass
+    acc.counters["gtests.tests_run_under_monitors"] += r.get("tests", 0)
+    for k, v in r.get("monitor_hits", {}).items():
+        if k.startswith(("oracle.", "M-")):
+            acc.counters["gtests." + k] += v
+    for t in r.get("tests_with_findings", []):
+        for f in t["findings"]:
+            if f["prop"] != prop:
+                continue
+            acc.add_finding(f["kind"], f.get("detail"), {"kind": "repo_test", "test": t["test"]},
+                            stage=f.get("stage"))
+    acc.evaluations += r.get("tests", 0)
+    return acc.result()
